@@ -189,7 +189,55 @@ var c05Entries = []c05Entry{
 		ok, st := encoder.Valid(unsafeBytes(s))
 		return fmt.Sprint(ok, st)
 	}},
+	{"ast.Preorder", func(s string) string {
+		var v c05Visitor
+		err := ast.Preorder(s, &v, nil)
+		return v.sb.String() + " " + errS(err)
+	}},
+	{"ast.NewRaw.Get(k1).Index(0).Raw", func(s string) string {
+		n := ast.NewRaw(s)
+		r, err := n.Get("k1").Index(0).Raw()
+		return r + " " + errS(err)
+	}},
+	{"ast.NewRaw.ForEach", func(s string) string {
+		n := ast.NewRaw(s)
+		var sb strings.Builder
+		err := n.ForEach(func(p ast.Sequence, c *ast.Node) bool {
+			r, e := c.Raw()
+			sb.WriteString(r + errS(e) + ";")
+			return true
+		})
+		return sb.String() + " " + errS(err)
+	}},
+	{"GetFromString(k1,1)+Interface", func(s string) string {
+		n, err := sonic.GetFromString(s, "k1", 1)
+		if err != nil {
+			return errS(err)
+		}
+		v, err := n.Interface()
+		b, _ := json.Marshal(v)
+		return string(b) + " " + errS(err)
+	}},
 }
+
+type c05Visitor struct{ sb strings.Builder }
+
+func (v *c05Visitor) OnNull() error           { v.sb.WriteString("n;"); return nil }
+func (v *c05Visitor) OnBool(b bool) error     { fmt.Fprintf(&v.sb, "b%v;", b); return nil }
+func (v *c05Visitor) OnString(s string) error { fmt.Fprintf(&v.sb, "s%q;", s); return nil }
+func (v *c05Visitor) OnInt64(i int64, n json.Number) error {
+	fmt.Fprintf(&v.sb, "i%d/%s;", i, n)
+	return nil
+}
+func (v *c05Visitor) OnFloat64(f float64, n json.Number) error {
+	fmt.Fprintf(&v.sb, "f%v/%s;", f, n)
+	return nil
+}
+func (v *c05Visitor) OnObjectBegin(c int) error    { v.sb.WriteString("{;"); return nil }
+func (v *c05Visitor) OnObjectKey(k string) error   { fmt.Fprintf(&v.sb, "k%q;", k); return nil }
+func (v *c05Visitor) OnObjectEnd() error           { v.sb.WriteString("};"); return nil }
+func (v *c05Visitor) OnArrayBegin(c int) error     { v.sb.WriteString("[;"); return nil }
+func (v *c05Visitor) OnArrayEnd() error            { v.sb.WriteString("];"); return nil }
 
 var c05Frags = []string{"t", "tr", "tru", "true", "n", "nu", "nul", "null", "f", "fa", "fal", "fals", "false",
 	`"`, `"a`, `"abc\`, `"\u12`, `"\ud800`, `"\ud800\u`, `"\ud800\udc0`, "-", "1", "12", "1.", "1e", "1e+", "-0", "0.1",
